@@ -191,12 +191,40 @@ Fixpoint semrun_prop (c : nat) (s : sem) (inflight : list nat) (h : list ev) : b
       end
   end.
 
+(* ---------- engine 5: concurrent creates at the count limit ---------- *)
+(* `pre` silences are stored, then K callers create at once through the real Silences.Set / POST /api/v2/silences
+   (the MaxSilences callback is used as a rendezvous, or free-running).  Set holds the write lock over check and
+   insertion, so every concurrent execution is a linearization: the model runs the creates one after the other, in
+   the listed order AND in the reverse order (the outcome counts do not depend on the order), and must reproduce
+   the observed number of successes and of stored silences.  A request is (fresh id, proto.Size of its MeshSilence). *)
+Definition conc_req : Type := string * Z.
+Definition conc_sil : sil := mkSil "" 1 true 0 1000 5000 0.
+Fixpoint conc_run (lim : limits) (st : gmap string msil) (reqs : list conc_req) : gmap string msil * nat :=
+  match reqs with
+  | [] => (st, O)
+  | (id, sz) :: r =>
+      let '(st', res) := set_sil lim 3600 (fun _ => sz) st 1000 conc_sil id in
+      let '(st'', n) := conc_run lim st' r in
+      (st'', match res with Ok _ => S n | _ => n end)
+  end.
+Definition conc_model (lim : limits) (pre reqs : list conc_req) : nat * nat * nat :=
+  let '(st0, npre) := conc_run lim ∅ pre in
+  let '(st1, n) := conc_run lim st0 reqs in
+  (npre, n, size st1).
+Definition conc_check (lim : limits) (pre reqs : list conc_req) (okn stored : nat) : bool :=
+  beq (conc_model lim pre reqs) (length pre, okn, stored) &&
+  beq (conc_model lim pre (reverse reqs)) (length pre, okn, stored).
+Definition conc_prop (lim : limits) (pre reqs : list conc_req) : bool :=
+  let '(_, _, n) := conc_model lim pre reqs in
+  negb (0 <? max_silences lim) || (Z.of_nat n <=? max_silences lim).
+
 (* ---------- the case type ---------- *)
 Inductive case :=
 | CBucket (cap : Z) (h : list (Z * bop * bobs))
 | CStore (N : Z) (h : list (Z * op * sobs))
 | CSil (lim : limits) (ret : Z) (h : list (Z * silop * silobs))
-| CSem (c : nat) (h : list (ev * verdict * nat)).
+| CSem (c : nat) (h : list (ev * verdict * nat))
+| CSilConc (lim : limits) (pre reqs : list conc_req) (okn stored : nat).
 
 Definition check_case (c : case) : bool :=
   match c with
@@ -204,6 +232,7 @@ Definition check_case (c : case) : bool :=
   | CStore N h => srun_check N empty_store h
   | CSil lim ret h => silrun_check lim ret ∅ h
   | CSem c h => semrun_check c sem0 h
+  | CSilConc lim pre reqs okn stored => conc_check lim pre reqs okn stored
   end.
 
 Definition prop_case (c : case) : bool :=
@@ -212,13 +241,15 @@ Definition prop_case (c : case) : bool :=
   | CStore N h => srun_prop N empty_store (map fst h)
   | CSil lim ret h => silrun_prop lim ret ∅ (map fst h)
   | CSem c h => semrun_prop c sem0 [] (map (fun x => fst (fst x)) h)
+  | CSilConc lim pre reqs _ _ => conc_prop lim pre reqs
   end.
 
 Inductive shown :=
 | ShBucket (o : list (bool * list (Z * Z * nat)))
 | ShStore (o : list (bool * nat * list alert * list (string * list (Z * Z))))
 | ShSil (o : list (string * string * list sil))
-| ShSem (o : list verdict * nat).
+| ShSem (o : list verdict * nat)
+| ShSilConc (o : nat * nat * nat).
 
 Definition show_case (c : case) : shown :=
   match c with
@@ -226,4 +257,5 @@ Definition show_case (c : case) : shown :=
   | CStore N h => ShStore (srun_show N empty_store (map fst h))
   | CSil lim ret h => ShSil (silrun_show lim ret ∅ (map fst h))
   | CSem c h => let '(s, vs) := sem_run c sem0 (map (fun x => fst (fst x)) h) in ShSem (vs, exceeded s)
+  | CSilConc lim pre reqs _ _ => ShSilConc (conc_model lim pre reqs)
   end.
